@@ -27,7 +27,7 @@
                                  n', the cursor_below flag, ready (C ++ bottom_rows ..), cursor, reach
         bottom_rows_equiv      : bottom_rows = wrap(text) ++ blanks ++ wrap(rest) cell for cell; its length
         bottom_region_rows     : text-then-bars vectors: padding + Bar rows = the last n' rows (next F)
-        draw_to_term_below     : the cursor_below flag does not depend on the alignment
+        full_pad_nil / full_pad_cons : fix 881c313's `full_screen_padding` only concerns the empty vector
     C19: paint_pad_real, draw_to_term_count (n' = bar_rows (painted ls) + draw_shift, either alignment),
          draw_rows_bounded_bottom (n' = bar rows + shift <= H + shift, <= max n (bar rows)).
     History-level consequences for MultiProgress: TermBottomMulti.v.
@@ -256,6 +256,31 @@ Proof.
   intros HW Hr Hc. pose proof (ready_row Wn Hn C t HW Hr) as Hnc. unfold next_cell in Hnc.
   rewrite Hc in Hnc. destruct (Nat.leb_spec Wn 0); [lia|]. congruence.
 Qed.
+
+(** a ready cursor at column 0 is the cursor on the blank row below [C] *)
+Lemma ready_col0_form Wn Hn C t : 1 <= Wn -> ready Wn Hn C t -> t_col t = 0 ->
+  exists k, t = app_state C [] k (t_vis t).
+Proof.
+  intros HW [k v Hv | d r k v HC Hr Hv] Hc.
+  - exists k. reflexivity.
+  - unfold app_state in Hc. cbn in Hc. lia.
+Qed.
+
+(** a wrap-pending cursor is on the last written row *)
+Lemma ready_edge_row Wn Hn C t : 1 <= Wn -> ready Wn Hn C t -> t_col t <> 0 -> S (t_row t) = length C.
+Proof.
+  intros HW Hr Hc. pose proof (ready_row Wn Hn C t HW Hr) as Hnc. unfold next_cell in Hnc.
+  destruct (Nat.leb_spec Wn (t_col t)); [congruence|]. exfalso. apply Hc. congruence.
+Qed.
+
+Lemma ready_reach_le Wn Hn C t : 1 <= Hn -> ready Wn Hn C t -> reach t <= Hn.
+Proof.
+  intros HH Hr. pose proof (ready_vis _ _ _ _ Hr) as Hv. unfold reach.
+  destruct (Nat.eqb (t_col t) 0); lia.
+Qed.
+
+Lemma repeat_snoc_blank j : repeat (@nil N) j ++ [[]] = repeat [] (S j).
+Proof. now rewrite repeat_snoc. Qed.
 
 Local Open Scope N_scope.
 (** a Bar line that never fits (proof device: cuts the paint loop after the text lines) *)
@@ -544,22 +569,9 @@ Proof.
   destruct (N.ltb_spec (visual_line_count ls W) n); [lia | reflexivity].
 Qed.
 
-(** the cursor_below flag does not depend on the alignment *)
-Lemma draw_to_term_below ls n al below W H :
-  snd (draw_to_term ls n al below W H)
-  = match ls with [] => if n =? 0 then below else true | _ => false end.
-Proof.
-  unfold draw_to_term.
-  set (sh0 := match al with Bottom => _ | Top => 0 end).
-  destruct (sh0 =? 0).
-  - destruct (paint ls 0 (N.of_nat (length ls)) W H 0) as [po re]. cbn [snd].
-    destruct ls; cbn [negb]; [destruct (n =? 0)|]; reflexivity.
-  - destruct (paint_pad ls 0 (N.of_nat (length ls)) W H 0 sh0 (negb (starts_with_text ls)))
-      as [[po re] pf]. cbn [snd].
-    destruct ls; cbn [negb]; [destruct (n =? 0)|]; reflexivity.
-Qed.
-
-(** the call list of a Bottom draw of a shrunken region: erase, padding, loop, flush *)
+(** the call list of a Bottom draw of a shrunken region: erase, padding, loop, flush.  After fix
+    881c313 an EMPTY vector whose padding is at least as tall as the terminal ([full_pad]) gets one
+    padding line less and cursor_below' = false *)
 Lemma draw_to_term_bottom_eq ls n below W H :
   visual_line_count ls W < n ->
   let sh := n - visual_line_count ls W in
@@ -567,20 +579,26 @@ Lemma draw_to_term_bottom_eq ls n below W H :
   let r := paint_pad ls 0 (N.of_nat (length ls)) W H 0 sh padded0 in
   draw_to_term ls n Bottom below W H =
     (((if below && (0 <? n) then [TUp 1] else []) ++ clear_ops n)
-       ++ ((if padded0 then repeat (TLine []) (N.to_nat sh) else []) ++ fst (fst r)) ++ [TFlush],
+       ++ ((if padded0
+            then repeat (TLine []) (N.to_nat (sh - (if full_pad ls sh H then 1 else 0)))
+            else []) ++ fst (fst r)) ++ [TFlush],
      snd (fst r) + (if snd r then sh else 0),
-     match ls with [] => true | _ => false end).
+     match ls with [] => negb (full_pad ls sh H) | _ => false end).
 Proof.
-  intros Hlt. cbv zeta.
-  pose proof (draw_to_term_below ls n Bottom below W H) as Hbel.
-  unfold draw_to_term in *.
+  intros Hlt. cbv zeta. unfold draw_to_term.
   destruct (N.ltb_spec (visual_line_count ls W) n) as [_|]; [|lia].
   destruct (N.eqb_spec (n - visual_line_count ls W) 0) as [|_]; [lia|].
   destruct (paint_pad ls 0 (N.of_nat (length ls)) W H 0 (n - visual_line_count ls W)
               (negb (starts_with_text ls))) as [[po re] pf].
-  cbn [fst snd] in *. rewrite <- !app_assoc. f_equal.
-  rewrite Hbel. destruct ls; [|reflexivity]. destruct (N.eqb_spec n 0); [lia | reflexivity].
+  cbn [fst snd]. rewrite <- !app_assoc. f_equal.
+  destruct ls; [|reflexivity]. cbn [negb]. destruct (N.eqb_spec n 0); [lia | reflexivity].
 Qed.
+
+Lemma full_pad_cons l r sh H : full_pad (l :: r) sh H = false.
+Proof. reflexivity. Qed.
+
+Lemma full_pad_nil sh H : 0 < sh -> full_pad [] sh H = (H <=? sh).
+Proof. intros Hs. unfold full_pad. destruct (N.ltb_spec 0 sh); [reflexivity | lia]. Qed.
 
 Local Open Scope nat_scope.
 Section DrawBottom.
@@ -599,9 +617,13 @@ Section DrawBottom.
         vector of text lines only gets no padding;
       - the new last_line_count is bar rows + shift (shift not counted when no Bar line is
         painted below text);
-      - cursor_below' = true exactly for the empty vector, and then the cursor REALLY is at
-        column 0 of the row below the padded region (row |C| + n); otherwise it is wrap-pending
-        at the right edge of the last row;
+      - EMPTY vector, n < H: cursor_below' = true and the cursor REALLY is at column 0 of the row
+        below the padded region (row |C| + n);
+      - EMPTY vector, n >= H (fix 881c313; then n = H, the region fills the screen): one padding line
+        less, cursor_below' = false, the cursor is at column 0 of the LAST row of the region (row
+        |C| + n - 1, the bottom row of the screen), i.e. at the end of the last of n blank rows, and
+        the terminal did NOT scroll: the first visible row is still row |C|, the top of the region;
+      - otherwise the cursor is wrap-pending at the right edge of the last row;
       - [ready] again, with the reach bookkeeping. *)
   Lemma draw_to_term_spec_bottom C F t ls (n : N) (below : bool) :
     ready Wn Hn (C ++ F) t -> length F = N.to_nat n -> N.to_nat n <= reach t ->
@@ -612,12 +634,18 @@ Section DrawBottom.
     let d := draw_to_term ls n Bottom below W H in
     let t' := run_ops Wn Hn t (fst (fst d)) in
     snd (fst d) = (bar_rows ls W + if bottom_padded ls then sh else 0)%N
-    /\ snd d = match ls with [] => true | _ => false end
-    /\ ready Wn Hn (C ++ R) t'
-    /\ (ls = [] -> R = repeat [] (N.to_nat n) /\ t_col t' = 0
-                   /\ t_row t' = length C + N.to_nat n
-                   /\ reach t' = Nat.min (Hn - 1) (reach t))
-    /\ (ls <> [] -> t_col t' <> 0
+    /\ snd d = match ls with [] => (n <? H)%N | _ => false end
+    /\ (ls = [] -> (n < H)%N ->
+          R = repeat [] (N.to_nat n) /\ ready Wn Hn (C ++ R) t' /\ t_col t' = 0
+          /\ t_row t' = length C + N.to_nat n
+          /\ reach t' = Nat.min (Hn - 1) (reach t))
+    /\ (ls = [] -> (H <= n)%N ->
+          n = H /\ below = false
+          /\ ready Wn Hn (C ++ repeat [] (N.to_nat n - 1)) t'
+          /\ (exists k, t' = at_end (C ++ repeat [] (N.to_nat n)) k (Hn - 1))
+          /\ t_col t' = 0 /\ S (t_row t') = length C + N.to_nat n /\ t_vis t' = Hn - 1
+          /\ t_top t' = t_top t /\ t_top t' = length C)
+    /\ (ls <> [] -> ready Wn Hn (C ++ R) t' /\ t_col t' <> 0
                     /\ reach t' = Nat.min Hn (reach t - N.to_nat n + length R)).
   Proof using HW HH.
     assert (HWn : 1 <= Wn) by (unfold Wn; lia).
@@ -629,17 +657,58 @@ Section DrawBottom.
     fold Wn Hn in Hr1, Hre1, Hc1.
     set (t1 := run_ops Wn Hn t ((if below && (0 <? n)%N then [TUp 1] else []) ++ clear_ops n)) in *.
     assert (Hc1' : t_col t1 = 0) by (apply Hc1; lia).
-    destruct (paint_pad_spec W H HW HH C t1 ls (n - visual_line_count ls W)%N Hr1 Hc1' Hfit)
-      as (Pa & Pb & Pc & Pd & Pe).
-    fold Wn Hn in Pc, Pd, Pe.
-    split; [now rewrite Pa, Pb|]. split; [reflexivity|]. split; [exact Pc|]. split.
-    - intros Hnil. destruct (Pd Hnil) as (Hcol & Hreach). subst ls.
+    destruct ls as [|l0 r0] eqn:Els.
+    - (* the empty vector *)
       assert (Hsh : (n - visual_line_count [] W)%N = n) by (unfold visual_line_count; cbn; lia).
-      rewrite Hsh in *. cbn [bottom_rows] in *. rewrite repeat_length in Hreach.
-      split; [reflexivity|]. split; [exact Hcol|]. split.
-      + rewrite (ready_col0_row Wn Hn _ _ HWn Pc Hcol), app_length, repeat_length. reflexivity.
-      + rewrite Hreach, Hre1. lia.
-    - intros Hne. destruct (Pe Hne) as (Hcol & Hreach). split; [exact Hcol|].
+      rewrite Hsh. cbn [starts_with_text negb paint_pad fst snd length bottom_rows bottom_padded].
+      rewrite app_nil_r, full_pad_nil by lia.
+      split; [unfold bar_rows; cbn; lia|].
+      destruct (N.leb_spec H n) as [Hfull|Hsmall]; cbn [negb].
+      + (* padding as tall as the terminal: one line less, no scroll *)
+        split; [symmetry; apply N.ltb_ge; exact Hfull|].
+        split; [intros _ Hc; lia|]. split; [|intros Hc; congruence]. intros _ _.
+        replace (N.to_nat (n - 1)) with (N.to_nat n - 1) by lia.
+        pose proof (ready_reach_le Wn Hn _ t HHn Hr) as Hrle.
+        assert (HnH : n = H) by (unfold Hn in *; lia).
+        assert (Hbel : below = false).
+        { destruct below; [|reflexivity]. exfalso.
+          pose proof (ready_vis _ _ _ _ Hr) as Hv. unfold reach in Hn'. rewrite Hb in Hn'.
+          cbn [Nat.eqb] in Hn'. unfold Hn in *. lia. }
+        subst below.
+        assert (Hvis : t_vis t = Hn - 1).
+        { pose proof (ready_vis _ _ _ _ Hr) as Hv. unfold reach in Hn'.
+          destruct (Nat.eqb_spec (t_col t) 0); [congruence|]. unfold Hn in *. lia. }
+        pose proof (ready_edge_row Wn Hn _ t HWn Hr Hb) as Hrow. rewrite app_length, HF in Hrow.
+        destruct (pad_ready Wn Hn HWn HHn (N.to_nat n - 1) C t1 Hr1 Hc1') as (Hr2 & Hc2 & Hre2).
+        set (t2 := run_ops Wn Hn t1 (repeat (TLine []) (N.to_nat n - 1))) in *.
+        pose proof (ready_col0_row Wn Hn _ t2 HWn Hr2 Hc2) as Hrow2.
+        rewrite app_length, repeat_length in Hrow2.
+        assert (Hvis2 : t_vis t2 = Hn - 1).
+        { unfold reach in Hre2 at 1. rewrite Hc2 in Hre2. cbn [Nat.eqb] in Hre2.
+          rewrite Hre1 in Hre2. unfold Hn in *. lia. }
+        split; [exact HnH|]. split; [reflexivity|]. split; [exact Hr2|]. split.
+        { destruct (ready_col0_form Wn Hn _ t2 HWn Hr2 Hc2) as (k & Ek). exists k.
+          rewrite Ek at 1. rewrite Hvis2, <- at_end_snoc_blank, <- app_assoc, repeat_snoc_blank.
+          replace (S (N.to_nat n - 1)) with (N.to_nat n) by lia. reflexivity. }
+        split; [exact Hc2|]. split; [lia|]. split; [exact Hvis2|].
+        unfold t_top. rewrite Hvis, Hvis2, Hrow2. unfold Hn in *. lia.
+      + (* padding shorter than the terminal: the cursor is below the region *)
+        split; [symmetry; apply N.ltb_lt; exact Hsmall|].
+        split; [|split; [intros _ Hc; lia | intros Hc; congruence]]. intros _ _.
+        rewrite N.sub_0_r.
+        destruct (pad_ready Wn Hn HWn HHn (N.to_nat n) C t1 Hr1 Hc1') as (Hr2 & Hc2 & Hre2).
+        split; [reflexivity|]. split; [exact Hr2|]. split; [exact Hc2|]. split.
+        * rewrite (ready_col0_row Wn Hn _ _ HWn Hr2 Hc2), app_length, repeat_length. reflexivity.
+        * rewrite Hre2, Hre1. lia.
+    - rewrite <- Els in *. assert (Hne : ls <> []) by (rewrite Els; discriminate).
+      assert (Hfp : full_pad ls (n - visual_line_count ls W) H = false) by (rewrite Els; reflexivity).
+      rewrite Hfp, N.sub_0_r.
+      destruct (paint_pad_spec W H HW HH C t1 ls (n - visual_line_count ls W)%N Hr1 Hc1' Hfit)
+        as (Pa & Pb & Pc & _ & Pe).
+      fold Wn Hn in Pc, Pe.
+      split; [now rewrite Pa, Pb|]. split; [reflexivity|].
+      split; [intros Hc; congruence|]. split; [intros Hc; congruence|].
+      intros _. destruct (Pe Hne) as (Hcol & Hreach). split; [exact Pc|]. split; [exact Hcol|].
       rewrite Hreach, Hre1. reflexivity.
   Qed.
 
@@ -795,12 +864,18 @@ Theorem draw_to_term_spec_bottom_full (W H : N) C F t ls (n : N) (below : bool) 
   let d := draw_to_term ls n Bottom below W H in
   let t' := run_ops (N.to_nat W) (N.to_nat H) t (fst (fst d)) in
   snd (fst d) = (bar_rows ls W + if bottom_padded ls then sh else 0)%N
-  /\ snd d = match ls with [] => true | _ => false end
-  /\ ready (N.to_nat W) (N.to_nat H) (C ++ R) t'
-  /\ (ls = [] -> R = repeat [] (N.to_nat n) /\ t_col t' = 0
-                 /\ t_row t' = length C + N.to_nat n
-                 /\ reach t' = Nat.min (N.to_nat H - 1) (reach t))
-  /\ (ls <> [] -> t_col t' <> 0
+  /\ snd d = match ls with [] => (n <? H)%N | _ => false end
+  /\ (ls = [] -> (n < H)%N ->
+        R = repeat [] (N.to_nat n) /\ ready (N.to_nat W) (N.to_nat H) (C ++ R) t' /\ t_col t' = 0
+        /\ t_row t' = length C + N.to_nat n
+        /\ reach t' = Nat.min (N.to_nat H - 1) (reach t))
+  /\ (ls = [] -> (H <= n)%N ->
+        n = H /\ below = false
+        /\ ready (N.to_nat W) (N.to_nat H) (C ++ repeat [] (N.to_nat n - 1)) t'
+        /\ (exists k, t' = at_end (C ++ repeat [] (N.to_nat n)) k (N.to_nat H - 1))
+        /\ t_col t' = 0 /\ S (t_row t') = length C + N.to_nat n /\ t_vis t' = N.to_nat H - 1
+        /\ t_top t' = t_top t /\ t_top t' = length C)
+  /\ (ls <> [] -> ready (N.to_nat W) (N.to_nat H) (C ++ R) t' /\ t_col t' <> 0
                   /\ reach t' = Nat.min (N.to_nat H) (reach t - N.to_nat n + length R))
   /\ rows_equiv (N.to_nat W) R
        (wrap (N.to_nat W) (map lt (text_prefix ls))
@@ -811,5 +886,6 @@ Proof.
   intros HW HH Hr HF Hn Hb Hlt Hfit. cbv zeta.
   destruct (draw_to_term_spec_bottom W H HW HH C F t ls n below Hr HF Hn Hb Hlt Hfit) as (A & B & D & E & G).
   destruct (bottom_rows_equiv W HW (n - visual_line_count ls W)%N ls) as (I & J).
-  repeat split; try assumption; try (now apply E); try (now apply G).
+  split; [exact A|]. split; [exact B|]. split; [exact D|]. split; [exact E|]. split; [exact G|].
+  split; [exact I | exact J].
 Qed.
